@@ -496,6 +496,81 @@ theorem C23_reduce_init_full_fails : ¬ C23_reduce_init_full := by
 theorem C23_reduce_init_partial (xs : List Int) :
     cpuReduce xs.length 0 (redFn 0 0 0 xs) (hostComb 0) = xs.foldl (· + ·) 0 := C23_reduce_sum xs 0
 
+/-- `array::indexOf(target)` — a min-reduction whose per-block start value is the array length — returns the
+    first index holding the target, or -1 if there is none (for every array, the empty one included) -/
+theorem C23_index_of (xs : List Int) (t : Int) :
+    ∃ r : Int, indexOfArr xs t = .ok r ∧
+      ((r = -1 ∧ ∀ i : Nat, i < xs.length → xs.getD i 0 ≠ t) ∨
+       (0 ≤ r ∧ r < xs.length ∧ xs.getD r.toNat 0 = t ∧ ∀ i : Nat, (i : Int) < r → xs.getD i 0 ≠ t)) := by
+  let g : Int → Int := fun i => if xs.getD i.toNat 0 = t then i else (xs.length : Int)
+  -- the kernel's step function is `min acc (g i)` as long as the accumulator stays ≤ length
+  have hstep : ∀ acc x : Int, acc ≤ (xs.length : Int) →
+      (if (xs.getD x.toNat 0 != t || decide (acc ≤ x)) = true then acc else x) = minI acc (g x) ∧
+      minI acc (g x) ≤ (xs.length : Int) := by
+    intro acc x hacc
+    simp only [g, minI_eq]
+    by_cases hx : xs.getD x.toNat 0 = t
+    · simp only [hx, bne_self_eq_false, Bool.false_or, decide_eq_true_eq, if_true]
+      constructor
+      · split <;> omega
+      · omega
+    · have : (xs.getD x.toNat 0 != t) = true := by simpa using hx
+      simp only [this, Bool.true_or, if_true, hx, if_false]
+      omega
+  have hred : reduceGen xs.length 7 true (xs.length : Int) (xs.getD 0 0)
+        (fun acc i => if (xs.getD i.toNat 0 != t || decide (acc ≤ i)) = true then acc else i) minI =
+      .ok (((forVals 0 (xs.length : Int) 1).map g).foldl minI (xs.length : Int)) := by
+    unfold reduceGen
+    by_cases h0 : (emptyGuard && xs.length == 0) = true
+    · have hl : xs.length = 0 := by
+        simp only [Bool.and_eq_true, beq_iff_eq] at h0; exact h0.2
+      rw [if_pos h0]
+      simp only [if_true, hl]
+      rw [forVals_nil 0 _ 1 (by decide) (by simp)]
+      rfl
+    · rw [if_neg h0]
+      simp only [if_true]
+      rw [cpuReduce_congr_inv (fun a => a ≤ (xs.length : Int)) _ (fun acc i => minI acc (g i)) minI _ _ hstep (Int.le_refl _),
+        C23_cpu_reduce_semilattice minI (by intro a b c; simp only [minI_eq]; omega)
+          (by intro a b; simp only [minI_eq]; omega) (by intro a; simp only [minI_eq]; omega) _ g _ (by omega)]
+  obtain ⟨hle, hall⟩ := foldl_minI_le ((forVals 0 (xs.length : Int) 1).map g) (xs.length : Int)
+  have hmem := foldl_minI_mem ((forVals 0 (xs.length : Int) 1).map g) (xs.length : Int)
+  generalize hm : ((forVals 0 (xs.length : Int) 1).map g).foldl minI (xs.length : Int) = m at hred hle hall hmem
+  have hg : ∀ i : Nat, i < xs.length → m ≤ g i := by
+    intro i hi
+    apply hall
+    exact List.mem_map.mpr ⟨(i : Int), (mem_forVals_one 0 _ _).mpr ⟨by omega, by omega⟩, rfl⟩
+  refine ⟨if m < (xs.length : Int) then m else -1, ?_, ?_⟩
+  · unfold indexOfArr
+    simp only
+    rw [hred]
+  · by_cases hlt : m < (xs.length : Int)
+    · rw [if_pos hlt]
+      right
+      rcases hmem with e | e
+      · omega
+      · obtain ⟨i, hi, hgi⟩ := List.mem_map.mp e
+        have hi' := (mem_forVals_one 0 _ _).mp hi
+        have hmatch : xs.getD i.toNat 0 = t ∧ m = i := by
+          simp only [g] at hgi
+          by_cases hx : xs.getD i.toNat 0 = t
+          · rw [if_pos hx] at hgi; exact ⟨hx, hgi.symm⟩
+          · rw [if_neg hx] at hgi; omega
+        refine ⟨by omega, hlt, by rw [hmatch.2]; exact hmatch.1, ?_⟩
+        intro k hk hxk
+        have := hg k (by omega)
+        simp only [g, Int.toNat_natCast, hxk, if_true] at this
+        omega
+    · rw [if_neg hlt]
+      left
+      refine ⟨rfl, ?_⟩
+      intro i hi hxi
+      have := hg i hi
+      simp only [g, Int.toNat_natCast, hxi, if_true] at this
+      omega
+
+example : indexOfArr [5, 1, 2, 1, 9, 1] 1 = .ok 1 ∧ indexOfArr [5, 1, 2] 7 = .ok (-1) := by decide +kernel
+
 /-! ### (c') every / some / findIndex over the visited indices -/
 
 /-- `every` is the conjunction and `some` the disjunction over the visited indices (with `C23_map_visit`:
